@@ -264,6 +264,7 @@ func checkC04(c *Ctx) {
 	// ---- R1
 	// what can be set anywhere in the screen
 	setSeen := map[string]bool{}
+	unidentified := "" // an emission whose string is not identified (a table row, a variable): it could be any mode's
 	for _, fn := range p.modFns {
 		if fn.Pkg != p.Tcell || recvTypeName(topFunc(fn)) != "tcell.tScreen" || fn == disengage {
 			continue
@@ -271,8 +272,18 @@ func checkC04(c *Ctx) {
 		eachInstr(fn, func(in ssa.Instruction) {
 			for _, id := range emitIdents(p, in) {
 				setSeen[id] = true
+				if id == "unknown" && unidentified == "" {
+					unidentified = p.pos(in.Pos())
+				}
 			}
 		})
+	}
+	for _, d := range deepInstrs(p, disengage, 3, func(call ssa.Instruction, _ *ssa.Function) bool { return len(emitIdents(p, call)) == 0 }) {
+		for _, id := range emitIdents(p, d.in) {
+			if id == "unknown" && unidentified == "" {
+				unidentified = p.pos(d.in.Pos())
+			}
+		}
 	}
 	type pair struct {
 		kind   string
@@ -318,6 +329,10 @@ func checkC04(c *Ctx) {
 			}
 		}
 		if !canSet {
+			if unidentified != "" {
+				c.Undecided("C04-R1", "pair:"+pr.kind, unidentified, "no emission that sets this mode is seen, but the string emitted here is not identified (a table row, a variable) and could be it or its reset")
+				continue
+			}
 			c.Trivial("C04-R1", "pair:"+pr.kind, p.pos(disengage.Pos()), "the screen never sets this mode")
 			continue
 		}
